@@ -25,14 +25,14 @@ CLAIMS.update({
         text='Static: one Task appended and mapped per node of topological_sort(graph) on every path of the '
              'node loop; every Task argument is shown to come from the right node/edge attribute of the '
              'workflow graph; the plan graph is relabel_nodes(graph, mapping); predecessor/successor queries '
-             'call the graph in their own role; Task.id is never rewritten and readers of the plan (scheduler, algorithms) read the task list the plan was built with. Holds for every DAG because the rule is about the code shape.',
+             'call the graph in their own role; Task.__init__ stores every planned value as given (G5); Task.id is never rewritten and readers of the plan (scheduler, algorithms) read the task list the plan was built with. Holds for every DAG because the rule is about the code shape.',
         note='Trusts the documented networkx API; BatchPlanning only (SHADOWPlanning needs the absent shadow library).',
         ref='DESIGN.md section 4, C14'),
     'C16': dict(
         technique='finite-world partial evaluation of the three unit ladders + affine scaling table',
         text='Static, complete for the statement up to float rounding: in six worlds (minutes, hours, two custom '
              'integers, seconds, unknown spelling) every feasible path of the three parse functions is evaluated; '
-             'each of 14 quantities must be its own config key times m, divided by m, or unscaled.',
+             'each of 14 quantities must be its own config key times m, divided by m (and then not rounded), or unscaled.',
         note='Quantities are assumed whole multiples of the unit; round() is treated as transparent.',
         ref='DESIGN.md section 4, C16'),
     'C17': dict(
@@ -67,7 +67,7 @@ CLAIMS.update({
         technique='effect analysis over atomic blocks of the Cluster (path enumeration, helper/spawn inlining, membership facts)',
         text='Static: pool state is private to Cluster and getters return copies; in every atomic block (path piece '
              'between two yields, helpers and spawned children inlined, loop invariants inferred) every machine is '
-             'either untouched or moved by one remove plus one append to a different pool; refusals precede effects '
+             'either untouched or moved by one remove plus one append to a different pool (a remove that can refuse comes first); refusals precede effects '
              'and a helper\'s refusal status is never dropped; machines set aside for a reservation are by provenance '
              'elements of the available pool (so the bulk operation cannot be refused half-way); the usage counters move exactly with the containers '
              'they mirror and start as the sizes of those containers (P10); containers are per instance (no class-level mutables or mutable defaults); C04.T2 and C09.R4 are adopted. These are necessary conditions for exactly-one-pool and true counts at every instant.',
@@ -164,7 +164,7 @@ CLAIMS.update({
         text='Static: BatchProcessing proposes only machines from get_idle_resources(plan.id) when provisioned; provisioning is '
              'dominated by not-provisioned, partitions free and size >= minimum; the size is floor(machines/partitions) capped by '
              'availability or the per-observation split (never below its minimum); finished tasks return machines to the owner; '
-             'exclusivity and release are adopted from C01.N3/N5, C02.P2/P4, C05.L3 and C04.T2; the reservation count starts at 0, is +1 per successful provisioning and -1 per dropped key (R7).',
+             'exclusivity and release are adopted from C01.N3/N5, C02.P2/P4, C05.L3 and C04.T2; reads of the reservation table are dominated by a membership test (C05.L4c); the reservation count starts at 0, is +1 per successful provisioning and -1 per dropped key (R7).',
         note='Counts at run time follow from these guards plus the counter rule; not enumerated.',
         ref='DESIGN.md section 4, C09'),
     'C18': dict(
@@ -172,7 +172,7 @@ CLAIMS.update({
         text='Static: per move loop the receiving and sending tier are driven by the same rate; per case the receiver\'s capacity '
              'delta is minus the sender\'s and equals minus the data moved, residuals agree and the loop raises otherwise; the '
              'source pops into its transfer slot and the receiver stores exactly when the residual reaches 0; the refusing path '
-             'restores everything. The hot->cold direction moving at the cold rate (not the slower of the two) is a recorded known finding.',
+             'restores everything; room is asked for the observation that is moved and the loop runs exactly while data is left. The hot->cold direction moving at the cold rate (not the slower of the two) is a recorded known finding.',
         note='Rates are assumed non-zero. The step count ceil(size/rate) follows from the tables and is not computed.',
         ref='DESIGN.md section 4, C18'),
 })
